@@ -11,6 +11,8 @@ import (
 type gctx struct {
 	t       *rapid.T
 	def     bool
+	defEnv  bool            // default scheme is the real env provider
+	unset   map[string]bool // environment variables referenced as unset
 	dag     []Entry // dag[i] may reference dag[j] only for j > i: no accidental cycles
 	extra   []Entry // helpers (nested names), typed leaves, ring members, '$'-named rows
 	ring    []string
@@ -82,6 +84,40 @@ func oneIn(t *rapid.T, label string, bits int) bool {
 	return true
 }
 
+func (g *gctx) defScheme() string {
+	if g.defEnv {
+		return "env"
+	}
+	return defaultScheme
+}
+
+var (
+	envSetPool   = []string{"C12_S0", "C12_S1", "c12_s2", "_C12S3"}
+	envUnsetPool = []string{"C12_U0", "C12_U1", "c12_u2", "_C12U3"}
+	envBadNames  = []string{"1C12", "C12-X", "", "C12 X", "C12.X", "-C12"}
+	// default / inline texts of every YAML type; no '$', '{', '}'
+	defaultPool = []string{"4317", "true", "0.25", "[a, b]", "", "0123", "a b", "null", "\"q\"", "- a", "x:-y", "1e3", "0x1F", "k: v",
+		" 12 ", "#c", "False", "~", "!!str 7", "[]", "a,b"}
+)
+
+// envUnsetRef builds a reference to an UNSET environment variable through the real env provider:
+// ${env:NAME:-default}, ${env:NAME}, and with default scheme env ${NAME} / (rarely) ${NAME:-default}.
+func (g *gctx) envUnsetRef(pool []string, forceDefault bool) Seg {
+	name := rapid.SampledFrom(envUnsetPool).Draw(g.t, "unsetname")
+	if g.unset == nil {
+		g.unset = map[string]bool{}
+	}
+	g.unset[name] = true
+	if forceDefault || rapid.IntRange(0, 3).Draw(g.t, "withdefault") != 0 {
+		d := rapid.SampledFrom(pool).Draw(g.t, "default")
+		if g.defEnv && !forceDefault && oneIn(g.t, "bracesdefault", 3) {
+			return Seg{K: "ref", Name: []Seg{lit(name + ":-" + d)}} // ${NAME:-default}
+		}
+		return g.refTo("env:"+name+":-"+d, true)
+	}
+	return g.refTo("env:"+name, true)
+}
+
 func (g *gctx) freshKey(prefix string) string {
 	g.counter++
 	return "aa:_" + prefix + strconv.Itoa(g.counter)
@@ -100,8 +136,12 @@ func (g *gctx) refTo(key string, allowNested bool) Seg {
 	i := strings.IndexByte(key, ':')
 	scheme, opaque := key[:i], key[i+1:]
 	r := Seg{K: "ref", Scheme: scheme}
-	if g.def && scheme == defaultScheme && !strings.Contains(opaque, ":") && rapid.Bool().Draw(g.t, "defaultform") {
+	if g.def && scheme == g.defScheme() && !strings.Contains(opaque, ":") && rapid.Bool().Draw(g.t, "defaultform") {
 		r.Scheme = ""
+	}
+	if scheme == "env" && r.Scheme != "" && !strings.Contains(opaque, ":-") && g.used[key] && oneIn(g.t, "ignoreddefault", 2) {
+		// the variable is set: a default must be ignored
+		opaque += ":-" + rapid.SampledFrom(defaultPool).Draw(g.t, "ignored")
 	}
 	if allowNested && rapid.IntRange(0, 5).Draw(g.t, "nested") == 0 {
 		a := rapid.IntRange(0, len(opaque)).Draw(g.t, "cutA")
@@ -176,6 +216,12 @@ func (g *gctx) genRef(minIdx int) Seg {
 		return g.dollarRef()
 	case oneIn(g.t, "badscheme", 6):
 		return Seg{K: "ref", Scheme: rapid.SampledFrom([]string{"zz", "a", "file"}).Draw(g.t, "badscheme"), Name: []Seg{lit("x")}}
+	case oneIn(g.t, "envunset", 3):
+		return g.envUnsetRef(defaultPool, false)
+	case oneIn(g.t, "yamlinline", 4):
+		return Seg{K: "ref", Scheme: "yaml", Name: []Seg{lit(rapid.SampledFrom(defaultPool).Draw(g.t, "inline"))}}
+	case oneIn(g.t, "envbadname", 6):
+		return Seg{K: "ref", Scheme: "env", Name: []Seg{lit(rapid.SampledFrom(envBadNames).Draw(g.t, "badname"))}}
 	case !g.def && oneIn(g.t, "nsref", 4):
 		// no default scheme: ${NAME} is plain text
 		return Seg{K: "ref", Name: []Seg{lit(rapid.SampledFrom([]string{"x", "HOME", "1", "a b", ""}).Draw(g.t, "nsname"))}}
@@ -257,8 +303,8 @@ func (g *gctx) genSeq(minIdx int, quoted bool) []Seg {
 func (g *gctx) genEscRef(minIdx int) Seg {
 	if rapid.IntRange(0, 2).Draw(g.t, "escbody") > 0 && len(g.dag) > 0 {
 		k := rapid.SampledFrom(g.dag).Draw(g.t, "esctarget").Key
-		if g.def && strings.HasPrefix(k, defaultScheme+":") && rapid.Bool().Draw(g.t, "escdefault") {
-			k = strings.TrimPrefix(k, defaultScheme+":")
+		if g.def && strings.HasPrefix(k, g.defScheme()+":") && rapid.Bool().Draw(g.t, "escdefault") {
+			k = strings.TrimPrefix(k, g.defScheme()+":")
 		}
 		return Seg{K: "escref", T: k}
 	}
@@ -324,6 +370,10 @@ func (g *gctx) genEntryVal(minIdx int) Val {
 // typedRef makes a whole-value reference to a row holding a scalar drawn from
 // pool, directly or through a chain of whole-value rows.
 func (g *gctx) typedRef(pool []string) Val {
+	if rapid.IntRange(0, 3).Draw(g.t, "typedenv") == 0 {
+		// port: ${env:PORT:-4317}: the default of an unset variable is typed like a value
+		return seqVal(g.envUnsetRef(pool, true))
+	}
 	k := g.freshKey("t")
 	switch {
 	case &pool[0] == &intPool[0]:
@@ -407,13 +457,17 @@ var fieldNames = []string{"s1", "s2", "s3", "i", "b", "f", "m", "ms", "l", "ls",
 
 func genX(t *rapid.T) XScript {
 	g := &gctx{t: t, def: rapid.Bool().Draw(t, "default"), used: map[string]bool{}}
+	g.defEnv = g.def && rapid.Bool().Draw(t, "defaultenv")
 	// table keys first (values are drawn back to front so that a row only points forward)
 	n := rapid.IntRange(1, 6).Draw(t, "nrows")
 	for i := 0; i < n; i++ {
-		sc := rapid.SampledFrom(allSchemes).Draw(t, "scheme")
+		sc := rapid.SampledFrom([]string{"aa", "b2", "x.y-z+1", defaultScheme, "env", "env"}).Draw(t, "scheme")
 		nm := rapid.SampledFrom(namePool).Draw(t, "name")
 		if sc == defaultScheme && strings.Contains(nm, ":") {
 			nm = "x"
+		}
+		if sc == "env" {
+			nm = rapid.SampledFrom(envSetPool).Draw(t, "envname") // a variable that is SET to the row's text
 		}
 		k := sc + ":" + nm
 		if g.used[k] {
@@ -445,7 +499,7 @@ func genX(t *rapid.T) XScript {
 		g.dag[i].Val = g.genEntryVal(i + 1)
 		g.remember(g.dag[i].Key, "dag:"+strconv.Itoa(i))
 	}
-	s := XScript{Default: g.def}
+	s := XScript{Default: g.def, DefEnv: g.defEnv}
 	for _, name := range fieldNames {
 		p := 3
 		if fieldKind[name] == "str" {
@@ -483,6 +537,11 @@ func genX(t *rapid.T) XScript {
 		}
 	}
 	s.Table = append(append([]Entry(nil), g.dag...), g.extra...)
+	for _, n := range envUnsetPool {
+		if g.unset[n] {
+			s.EnvUnset = append(s.EnvUnset, n)
+		}
+	}
 	s.Text = s.describe()
 	return s
 }
